@@ -460,6 +460,31 @@ pub fn generate(tier: Tier, rng: &mut Rng) -> Vec<Case> {
     ] {
         push(src.to_string(), None, usize::MAX, vec!["literal-containers-and-paths"], &mut out);
     }
+    // every built-in function in both call styles over logged operands: each operand once
+    {
+        let ts = "t(timestamp('2024-02-29T10:11:12.345Z'))";
+        let mut srcs: Vec<String> = vec![];
+        for g in ["getFullYear", "getMonth", "getDayOfYear", "getDayOfMonth", "getDate", "getDayOfWeek", "getHours", "getMinutes", "getSeconds", "getMilliseconds"] {
+            srcs.push(format!("{g}({ts})"));
+            srcs.push(format!("{ts}.{g}()"));
+            srcs.push(format!("{g}({ts}, t('+01:00'))"));
+            srcs.push(format!("{ts}.{g}(t('UTC'))"));
+        }
+        for (f, a) in [("size", "t('abc')"), ("size", "t([1, 2])"), ("string", "t(1)"), ("int", "t('7')"), ("uint", "t(7)"), ("double", "t(1)"), ("bytes", "t('a')"), ("duration", "t('1s')"), ("timestamp", "t('2024-01-01T00:00:00Z')")] {
+            srcs.push(format!("{f}({a})"));
+            srcs.push(format!("{a}.{f}()"));
+            srcs.push(format!("{f}({a}, t(0))"));
+        }
+        for (f, a, b) in [("contains", "t('abc')", "t('b')"), ("startsWith", "t('abc')", "t('a')"), ("endsWith", "t('abc')", "t('c')"), ("matches", "t('abc')", "t('b')"), ("contains", "t([1, 2])", "t(2)"), ("max", "t(1)", "t(2)"), ("min", "t(2)", "t(1)")] {
+            srcs.push(format!("{f}({a}, {b})"));
+            srcs.push(format!("{a}.{f}({b})"));
+            srcs.push(format!("{f}({a})"));
+            srcs.push(format!("{f}({a}, {b}, t(9))"));
+        }
+        for src in srcs {
+            push(src, None, usize::MAX, vec!["builtins-both-styles"], &mut out);
+        }
+    }
     // receiver parameter in second position: both styles, every arity; the model decides
     for f in ["pt", "ptp"] {
         for n in 0..=4usize {
